@@ -575,7 +575,8 @@ _c07 = PROPS["C07"]
 thm("C08", ["C08"], ["C08_no_leak_events", "C08_table_complete"])
 thm("C09", ["C08"], ["C09_block_functions", "C09_table_complete", "C09_vector_batch_functions", "C09_vector_table_complete", "C11_no_junk_in_loaders"])
 PROPS["C09"]["modules"].append("SkinnyVerif.Properties.C11")
-thm("C18", ["C18", "C13"], ["C18_no_mutable_statics", "C18_census_nonempty", "C18_parallel_crypt_read_only", "C18_mantis_parallel_crypt_read_only", "setVal_comm", "C13_deterministic"])
+thm("C18", ["C18", "C13", "C18I"], ["C18_no_mutable_statics", "C18_census_nonempty", "C18_parallel_crypt_read_only", "C18_mantis_parallel_crypt_read_only", "setVal_comm", "C13_deterministic",
+            "callStep_frame", "C18_calls_commute", "C18_interleaving", "C18_interleaving_reachable", "goodW_of_inv"])
 thm("C19", ["C19", "C19M", "C06"], ["C19_skinny128", "C19_skinny128_eq_C", "C19_tweaked128", "C19_skinny64", "C19_tweaked64", "C19_mantis8", "C19_mantis8_swap",
             "opsArd128_correct", "opsArd64_correct", "SkinnyVerif.Lemmas.mantisPieces_ard", "SkinnyVerif.Lemmas.mantisKeys_ard", "C05_stream"])
 thm("C20", ["C20"], ["C20_ctr_tool", "C20_ctr_tool_roundtrip", "C20_ecb_tool", "C20_increment_tweak", "C20_tweak_of_block", "C20_tweak_tool", "readChunks_flatten"])
